@@ -112,6 +112,10 @@ pub struct EnergyAppSpec {
     /// 0 Toyota Camry, 1 Chevrolet Volt charge sustaining (varies with speed over the whole range)
     #[serde(default)]
     pub model: u8,
+    /// battery electric vehicle (Chevrolet Bolt model, 60 kWh) instead of the ICE vehicle: the
+    /// query's starting_soc_percent becomes the initial value of the model's battery_state feature
+    #[serde(default)]
+    pub bev: bool,
 }
 
 pub const ENERGY_VEHICLE: &str = "veh";
@@ -266,7 +270,13 @@ pub fn write_app(spec: &AppSpec, dir: &CaseDir) -> std::io::Result<AppFiles> {
         write_text(&gp, &gt, false)?;
         let model = crate::engine::repo_root()
             .join("rust/routee-compass-powertrain/src/routee/test")
-            .join(if en.model == 1 { "2016_CHEVROLET_Volt_Charge_Sustaining.bin" } else { "Toyota_Camry.bin" });
+            .join(if en.bev {
+                "2017_CHEVROLET_Bolt.bin"
+            } else if en.model == 1 {
+                "2016_CHEVROLET_Volt_Charge_Sustaining.bin"
+            } else {
+                "Toyota_Camry.bin"
+            });
         let model_type = if en.interpolate {
             json!({"interpolate": {"underlying_model_type": "smartcore",
                    "speed_lower_bound": 0, "speed_upper_bound": 100, "speed_bins": 41,
@@ -276,13 +286,17 @@ pub fn write_app(spec: &AppSpec, dir: &CaseDir) -> std::io::Result<AppFiles> {
         };
         let mut veh = serde_json::Map::new();
         veh.insert("name".into(), json!(ENERGY_VEHICLE));
-        veh.insert("type".into(), json!("ice"));
+        veh.insert("type".into(), json!(if en.bev { "bev" } else { "ice" }));
+        if en.bev {
+            veh.insert("battery_capacity".into(), json!(60.0));
+            veh.insert("battery_capacity_unit".into(), json!("kilowatt_hours"));
+        }
         veh.insert("model_input_file".into(), json!(s(&model)));
         veh.insert("model_type".into(), model_type);
         veh.insert("speed_unit".into(), json!("miles_per_hour"));
         veh.insert("grade_unit".into(), json!("decimal"));
-        veh.insert("energy_rate_unit".into(), json!("gallons_gasoline_per_mile"));
-        veh.insert("ideal_energy_rate".into(), json!(0.02857143));
+        veh.insert("energy_rate_unit".into(), json!(if en.bev { "kilowatt_hours_per_mile" } else { "gallons_gasoline_per_mile" }));
+        veh.insert("ideal_energy_rate".into(), json!(if en.bev { 0.2 } else { 0.02857143 }));
         veh.insert("real_world_energy_adjustment".into(), json!(en.adjustment));
         if let Some((size, ps, pg)) = en.cache {
             veh.insert("float_cache_policy".into(), json!({"cache_size": size, "key_precisions": [ps, pg]}));
@@ -371,8 +385,9 @@ pub fn write_app(spec: &AppSpec, dir: &CaseDir) -> std::io::Result<AppFiles> {
         rates.insert(TIME.into(), spec.r_time.to_json());
     }
     if let Some(en) = &spec.energy {
-        weights.insert("energy_liquid".into(), json!(en.w_energy));
-        rates.insert("energy_liquid".into(), json!({"type": "raw"}));
+        let feature = if en.bev { "energy_electric" } else { "energy_liquid" };
+        weights.insert(feature.into(), json!(en.w_energy));
+        rates.insert(feature.into(), json!({"type": "raw"}));
     }
     cfg.insert(
         "cost".into(),
